@@ -52,7 +52,8 @@ class World:
         from fcp import parser as P
 
         self.P = P
-        self.root = tempfile.mkdtemp(prefix="verif_fs_")
+        from ..common import reg_tmp
+        self.root = reg_tmp(tempfile.mkdtemp(prefix="verif_fs_"))
         atexit.register(shutil.rmtree, self.root, ignore_errors=True)
         self.files = {}
         for k, v in files.items():
